@@ -447,7 +447,7 @@ def run_chunk(spec):
                     continue
                 for name, script in scripts_for({"plain": 3, "machineslow": 4}.get(kind, T)):
                     jobs.append(("async", kind, with_on_error, plans, script, name))
-    nrand = 30 if tier == "quick" else 1200
+    nrand = 30 if tier == "quick" else 20000
     for j in range(nrand * NCHUNKS):
         kind = ("plain", "coro", "coro", "machine", "machineslow")[j % 5]
         plans = [(rng.choice([1, 3, T, T + 4]), rng.choice(["ret", "ret", "raise"])) for _ in range(4)]
